@@ -17,6 +17,7 @@ package model
 
 import (
 	"fmt"
+	"slices"
 	"strings"
 	"sync"
 	"testing"
@@ -139,6 +140,16 @@ func c20SPMVocab(c c20Case) *Vocabulary {
 		scores: append(make([]float32, 0, len(h.values)+128), h.scores...),
 		seen:   make(map[string]bool, 128),
 	}
+	if c.ByteLayout%3 != 0 {
+		start := slices.Index(b.values, "<0x00>")
+		for i := 0; i < 256; i++ {
+			j := 255 - i
+			if c.ByteLayout%3 == 2 {
+				j = (i + 7) % 256
+			}
+			b.values[start+j] = fmt.Sprintf("<0x%02X>", i)
+		}
+	}
 	add := func(s string, score float32) {
 		if h.seen[s] || c20ByteShaped(s) || strings.Contains(s, " ") {
 			return
@@ -206,6 +217,7 @@ func c20GenSPM(t *rapid.T) c20Case {
 		}
 	}
 	c.CharMode = rapid.IntRange(0, 2).Draw(t, "charmode")
+	c.ByteLayout = rapid.SampledFrom([]int{0, 0, 1, 2}).Draw(t, "byte_layout")
 	ns := rapid.SampledFrom([]int{0, 0, 1, 2, 4, 8}).Draw(t, "nspans")
 	for i := 0; i < ns; i++ {
 		c.Spans = append(c.Spans, c20Span{
